@@ -27,7 +27,7 @@ for (c, mm), (suite, wf, of, d) in sorted(ver.items()):
     prop, ex, rules = det.get((c, mm), (c, None, []))
     meta = {
         'id': f'{c}-{suffix}{mm}', 'property': c,
-        'origin': f'round {suffix.lstrip("r")}: written by an independent sub-agent that saw only the property text and its own scratch worktree of /repo (commit 8c87d15); nothing from /verif',
+        'origin': f'round {suffix.lstrip("r")}: written by an independent sub-agent that saw only the property text and its own scratch worktree of /repo (commit 5fe29a6); nothing from /verif',
         'needs_to_manifest': needs,
         'demo': {'file': 'demo_test.go', 'package_dir': d, 'tests': tests},
         'confirmed_by_me': {
